@@ -95,7 +95,7 @@ def reclamation(S):
 
 def structure(S):
     """Structural stores under the guarding lock, link / parent pairing, split sibling locked + dirty + linked before it
-    is reachable (C08 R-MUL, R-LINK; C06 R-SPL): what a traversal along the leaf chain relies on."""
+    is reachable, a deleted border retired or without sibling links (C08 R-MUL, R-LINK, R-SIB; C06 R-SPL): what a traversal along the leaf chain relies on."""
     if not _once(S, 'structure'):
         return
     from checks import C08, C06
@@ -104,6 +104,7 @@ def structure(S):
     C08.rule_mul(S, la)
     C08.rule_link(S, la)
     C08.rule_move(S)
+    C08.rule_sib(S)
     C06.rule_spl(S)
 
 
